@@ -171,8 +171,18 @@ def cases(tier, rng):
         s = ''.join(rng.choice(AFT) for _ in range(rng.randint(2, 8)))
         yield {'tol': rng.random() < 0.6, 'ctx': 'default', 's': s, 'afterdb': True}
 
+    # one walker object, several parse_content() calls at different positions, earlier ones failing (strict mode) or stopping
+    # inside a formula: a later call without an explicit state starts in the walker's default (text) state (oracle only)
+    FIRST = ['$a } b$', '\\[ x \\end{y} \\]', '{$ \\)', '\\begin{equation} a }', '$a$', '$$ \\text{ $ } $$', '\\(a', '\\ensuremath{ } }', 'ok {x}']
+    SECOND = [' Then \\textbf{bold} and $c$ hold.', 'x $y$ z', '\\emph{q}', '$$w$$', 'a']
+    for a in FIRST:
+        for b in SECOND:
+            for tol in (False, True):
+                yield {'tol': tol, 'ctx': 'default', 's': a + b, 'rewalk': [0, len(a)]}
+                yield {'tol': tol, 'ctx': 'default', 's': a + b + a + b, 'rewalk': [0, len(a), len(a + b), len(a + b + a)]}
+
 def to_line(c):
-    if c.get('legcall') is not None or c.get('legparser') or c.get('afterdb'):
+    if c.get('legcall') is not None or c.get('legparser') or c.get('afterdb') or c.get('rewalk'):
         return None
     return parsecase.to_line(c)
 
@@ -214,6 +224,22 @@ def after_delta_db():
 def run_legacy(c):
     """legacy calls with an explicit state: every returned node records that state's mode, and so on downwards"""
     from pylatexenc import latexwalker
+    if c.get('rewalk'):
+        from pylatexenc.latexnodes import parsers
+        w = latexwalker.LatexWalker(c['s'], tolerant_parsing=c['tol'])
+        seen = set(); outs = []
+        for k, pos in enumerate(c['rewalk']):
+            try:
+                nl, _ = w.parse_content(parsers.LatexGeneralNodesParser(), token_reader=w.make_token_reader(pos=pos))
+            except latexwalker.LatexWalkerParseError:
+                outs.append('ERR'); continue
+            outs.append('ok')
+            # whatever came before on this walker: the call was given no state, so its top-level nodes are in text mode
+            r = check_modes(list(nl or []), (False, None), ctx_json('default'), seen)
+            if r:
+                return {'out': ' '.join(outs), 'sig': 'rewalk', 'fail': {'kind': 'mode-differs-from-implied',
+                        'detail': 'call %d of %r on one walker (parse_content at positions %r, no state given) on %r: %s' % (k + 1, len(c['rewalk']), c['rewalk'], c['s'], r)}}
+        return {'out': ' '.join(outs), 'fail': None, 'sig': 'rewalk:' + ''.join(o[0] for o in outs)}
     if c.get('afterdb'):
         from pylatexenc.latexnodes import parsers
         w = latexwalker.LatexWalker(c['s'], latex_context=after_delta_db(), tolerant_parsing=c['tol'])
@@ -332,7 +358,7 @@ def ctx_json(ctx):
 
 def run_impl(c):
     from pylatexenc.latexnodes import nodes as N
-    if c.get('legcall') is not None or c.get('legparser') or c.get('afterdb'):
+    if c.get('legcall') is not None or c.get('legparser') or c.get('afterdb') or c.get('rewalk'):
         return run_legacy(c)
     w, kind, p = parsecase.parse(c)
     out = parsecase.show_result(kind, p)
